@@ -18,3 +18,5 @@ mod escape;
 mod js_bindings;
 mod path;
 mod proc_gen;
+#[cfg(glass_easel_verif)]
+pub mod verif_hooks;
